@@ -264,6 +264,12 @@ func pxExec(cfg *pxConfig, text string, in *pxInit, ref *refResult, explore bool
 	}
 	vm := cfg.New(pxMemSize)
 	in.apply(vm.Context())
+	return pxExecOn(vm, app, ref, explore, prefix, onCycle)
+}
+
+// pxExecOn runs an already parsed application on an already built (and
+// initialised) machine.
+func pxExecOn(vm vmIface, app risc.Application, ref *refResult, explore bool, prefix []int, onCycle func(vm vmIface)) (out pxOutcome) {
 	bound := cycleBound(ref.Steps)
 	verifrt.Begin(bound, 2_000_000, 400_000_000, explore, prefix)
 	if onCycle != nil {
